@@ -26,6 +26,11 @@ type latRecord struct {
 	Pos      [][2]int `json:"pos"`
 	Interior [][2]int `json:"interior"`
 	Queries  int      `json:"queries"`
+	// coarse-to-fine variants run on solids with features the pre-pass may miss: the
+	// vertices of the pre-pass mesh in units of 1/16, and a lower bound of 16 * (the
+	// documented filter margin 2*sqrt(3)*bigDelta + extraSpace); 0 = not such a variant
+	Coarse   [][3]int `json:"coarse"`
+	Margin16 int      `json:"margin16"`
 }
 
 func latticeBits(l *latticeSolid3) []int {
@@ -127,6 +132,50 @@ type latVariant struct {
 	// run returns the mesh, the dyadic denominator of refined vertex positions (0 if
 	// vertices are midpoints), and the interior map if any
 	run func(l *latticeSolid3, rng *rand.Rand) (*model3d.Mesh, int, *model3d.CoordMap[model3d.Coord3D])
+	// c2f, if set, is {bigDelta, extraSpace} of a coarse-to-fine run at fine spacing 1, 3 iterations
+	c2f *[2]float64
+}
+
+// geomFilter3 is the truthful geometric filter of a lattice solid: does the closed
+// rectangle meet the solid's boundary?  Lattice point i owns [i-s, i+1-s) on every axis,
+// so the boundary consists of unit squares at coordinate i-s between differing
+// neighbours i-1 and i.
+func geomFilter3(l *latticeSolid3) func(*model3d.Rect) bool {
+	s := l.shift
+	return func(r *model3d.Rect) bool {
+		lo, hi := r.MinVal.Array(), r.MaxVal.Array()
+		for z := 1; z <= l.n[2]+1; z++ {
+			for y := 1; y <= l.n[1]+1; y++ {
+				for x := 1; x <= l.n[0]+1; x++ {
+					p := [3]int{x, y, z}
+					for a := 0; a < 3; a++ {
+						q := p
+						q[a]--
+						if l.at(p[0], p[1], p[2]) == l.at(q[0], q[1], q[2]) {
+							continue
+						}
+						hit := true
+						for b := 0; b < 3; b++ {
+							// clipped to the solid's reported bounds [1, n]
+							flo := math.Max(float64(p[b])-s, 1)
+							fhi := math.Min(float64(p[b])+1-s, float64(l.n[b]))
+							if b == a {
+								flo = math.Min(flo, float64(l.n[b]))
+								fhi = flo
+							}
+							if fhi < lo[b] || flo > hi[b] {
+								hit = false
+							}
+						}
+						if hit {
+							return true
+						}
+					}
+				}
+			}
+		}
+		return false
+	}
 }
 
 const latShiftNum = 5 // shift = 5/16, so every transition is at lower end + 11/16
@@ -135,13 +184,13 @@ func latVariants() map[string]latVariant {
 	vs := []latVariant{
 		{"MC", func(l *latticeSolid3, _ *rand.Rand) (*model3d.Mesh, int, *model3d.CoordMap[model3d.Coord3D]) {
 			return model3d.MarchingCubes(l, 1), 0, nil
-		}},
+		}, nil},
 		{"MCFilterTrue", func(l *latticeSolid3, _ *rand.Rand) (*model3d.Mesh, int, *model3d.CoordMap[model3d.Coord3D]) {
 			return model3d.MarchingCubesFilter(l, func(*model3d.Rect) bool { return true }, 1), 0, nil
-		}},
+		}, nil},
 		{"MCFilterExact", func(l *latticeSolid3, _ *rand.Rand) (*model3d.Mesh, int, *model3d.CoordMap[model3d.Coord3D]) {
 			return model3d.MarchingCubesFilter(l, exactFilter3(l, nil), 1), 0, nil
-		}},
+		}, nil},
 		{"MCFilterExactPlus", func(l *latticeSolid3, rng *rand.Rand) (*model3d.Mesh, int, *model3d.CoordMap[model3d.Coord3D]) {
 			var mu sync.Mutex
 			extra := func(*model3d.Rect) bool {
@@ -150,27 +199,43 @@ func latVariants() map[string]latVariant {
 				return rng.Intn(2) == 0
 			}
 			return model3d.MarchingCubesFilter(l, exactFilter3(l, extra), 1), 0, nil
-		}},
+		}, nil},
 		{"MCSearch3", func(l *latticeSolid3, _ *rand.Rand) (*model3d.Mesh, int, *model3d.CoordMap[model3d.Coord3D]) {
 			return model3d.MarchingCubesSearch(l, 1, 3), 16, nil
-		}},
+		}, nil},
 		{"MCSearch5", func(l *latticeSolid3, _ *rand.Rand) (*model3d.Mesh, int, *model3d.CoordMap[model3d.Coord3D]) {
 			return model3d.MarchingCubesSearch(l, 1, 5), 64, nil
-		}},
+		}, nil},
 		{"MCSearchFilter3", func(l *latticeSolid3, _ *rand.Rand) (*model3d.Mesh, int, *model3d.CoordMap[model3d.Coord3D]) {
 			return model3d.MarchingCubesSearchFilter(l, exactFilter3(l, nil), 1, 3), 16, nil
-		}},
+		}, nil},
 		{"MCInterior4", func(l *latticeSolid3, _ *rand.Rand) (*model3d.Mesh, int, *model3d.CoordMap[model3d.Coord3D]) {
 			m, in := model3d.MarchingCubesInterior(l, 1, 4)
 			return m, 32, in
-		}},
+		}, nil},
 		{"MCConj3", func(l *latticeSolid3, _ *rand.Rand) (*model3d.Mesh, int, *model3d.CoordMap[model3d.Coord3D]) {
 			return model3d.MarchingCubesConj(l, 2, 3, &model3d.Scale{Scale: 2},
 				&model3d.Translate{Offset: model3d.XYZ(4, -2, 6)}), 16, nil
-		}},
+		}, nil},
 		{"MCC2F", func(l *latticeSolid3, _ *rand.Rand) (*model3d.Mesh, int, *model3d.CoordMap[model3d.Coord3D]) {
 			return model3d.MarchingCubesC2F(l, 2, 1, 0, 3), 16, nil
-		}},
+		}, nil},
+		{"MCC2Fx0", func(l *latticeSolid3, _ *rand.Rand) (*model3d.Mesh, int, *model3d.CoordMap[model3d.Coord3D]) {
+			return model3d.MarchingCubesC2F(l, 2, 1, 0, 3), 16, nil
+		}, &[2]float64{2, 0}},
+		{"MCC2Fx3", func(l *latticeSolid3, _ *rand.Rand) (*model3d.Mesh, int, *model3d.CoordMap[model3d.Coord3D]) {
+			return model3d.MarchingCubesC2F(l, 2, 1, 3, 3), 16, nil
+		}, &[2]float64{2, 3}},
+		{"MCC2Fx6", func(l *latticeSolid3, _ *rand.Rand) (*model3d.Mesh, int, *model3d.CoordMap[model3d.Coord3D]) {
+			return model3d.MarchingCubesC2F(l, 2, 1, 6, 3), 16, nil
+		}, &[2]float64{2, 6}},
+		{"MCFilterGeom", func(l *latticeSolid3, _ *rand.Rand) (*model3d.Mesh, int, *model3d.CoordMap[model3d.Coord3D]) {
+			// boundary within the mesher's epsilon (1e-3 * delta) below the grid planes
+			old := l.shift
+			l.shift = 1.0 / 2048
+			defer func() { l.shift = old }()
+			return model3d.MarchingCubesFilter(l, geomFilter3(l), 1), 0, nil
+		}, nil},
 	}
 	out := map[string]latVariant{}
 	for _, v := range vs {
@@ -181,7 +246,7 @@ func latVariants() map[string]latVariant {
 
 func runLattice(id int, l *latticeSolid3, v latVariant, cfg string, procs int, rng *rand.Rand) latRecord {
 	rec := latRecord{Id: id, N: l.n[:], Inside: latticeBits(l), Variant: v.name, Cfg: cfg,
-		Tris: [][3]int{}, Pos: [][2]int{}, Interior: [][2]int{}}
+		Tris: [][3]int{}, Pos: [][2]int{}, Interior: [][2]int{}, Coarse: [][3]int{}}
 	var mu sync.Mutex
 	l.probe = func(model3d.Coord3D) {
 		mu.Lock()
@@ -200,6 +265,12 @@ func runLattice(id int, l *latticeSolid3, v latVariant, cfg string, procs int, r
 			rec.Tnum = den - den*latShiftNum/16
 		}
 		meshToLatRecord(&rec, m, den, interior)
+		if v.c2f != nil {
+			rec.Margin16 = int(math.Floor(16*(2*v.c2f[0]*math.Sqrt(3)+v.c2f[1]))) - 1
+			for _, c := range model3d.MarchingCubesSearch(l, v.c2f[0], 3).VertexSlice() {
+				rec.Coarse = append(rec.Coarse, [3]int{int(math.Round(c.X * 16)), int(math.Round(c.Y * 16)), int(math.Round(c.Z * 16))})
+			}
+		}
 	})
 	return rec
 }
@@ -227,11 +298,43 @@ func blockySolid(rng *rand.Rand, n, feat int) *latticeSolid3 {
 	return l
 }
 
+// satelliteSolid is a block the coarse pre-pass sees plus a few single lattice points or
+// short sticks which it may miss entirely, at various distances from the block.
+func satelliteSolid(rng *rand.Rand, n int) *latticeSolid3 {
+	l := newLatticeSolid3(n, n, n, 0)
+	var lo, sz [3]int
+	for a := 0; a < 3; a++ {
+		sz[a] = 2 + rng.Intn(3)
+		lo[a] = 1 + rng.Intn(2)
+	}
+	for z := lo[2]; z < lo[2]+sz[2]; z++ {
+		for y := lo[1]; y < lo[1]+sz[1]; y++ {
+			for x := lo[0]; x < lo[0]+sz[0]; x++ {
+				l.inside[x-1+n*(y-1+n*(z-1))] = true
+			}
+		}
+	}
+	for k := 0; k < 1+rng.Intn(3); k++ {
+		p := [3]int{1 + rng.Intn(n), 1 + rng.Intn(n), 1 + rng.Intn(n)}
+		if k == 0 {
+			// the first one far from the block on some axis
+			p[rng.Intn(3)] = n - rng.Intn(4)
+		}
+		axis, length := rng.Intn(3), 1+rng.Intn(2)
+		for i := 0; i < length && p[axis] <= n; i++ {
+			l.inside[p[0]-1+n*(p[1]-1+n*(p[2]-1))] = true
+			p[axis]++
+		}
+	}
+	return l
+}
+
 func init() {
 	// c01-lattice out=records.ndjson plan=<plan> seed=N
 	// plan items separated by ';' :  all:NX,NY,NZ:variant,variant:procs   (every subset)
 	//                                rand:NX,NY,NZ:COUNT:variant,...:procs,procs
 	//                                blocky:N:COUNT:variant,...:procs,...
+	//                                sat:N:COUNT:variant,...:procs,...
 	register("c01-lattice", func(a args) {
 		out := newNDWriter(a.str("out", "records.ndjson"))
 		defer out.close()
@@ -257,6 +360,9 @@ func init() {
 					stats["triangles"] += len(rec.Tris)
 					if len(rec.Tris) > 0 {
 						stats["nonempty"]++
+					}
+					if rec.Margin16 > 0 {
+						stats["guarded"]++
 					}
 					out.write(rec)
 				}
@@ -289,6 +395,11 @@ func init() {
 				n := atoi(f[1])
 				for i := 0; i < atoi(f[2]); i++ {
 					emit(blockySolid(rng, n, 4), f[3], f[4])
+				}
+			case "sat":
+				n := atoi(f[1])
+				for i := 0; i < atoi(f[2]); i++ {
+					emit(satelliteSolid(rng, n), f[3], f[4])
 				}
 			default:
 				fatal("bad plan item %q", item)
